@@ -43,7 +43,7 @@ func hasProp(props []string, id string) bool {
 func (p *Program) newSpecExec(pkgPath, name string, bv bool) (*Exec, *State) {
 	vc := newVC(bv)
 	pk := p.byPath[pkgPath]
-	x := &Exec{prog: p, vc: vc, pkg: pk, fname: name, counts: map[string]int{}, boxed: map[types.Object]bool{}}
+	x := &Exec{prog: p, vc: vc, pkg: pk, fname: name, counts: map[string]int{}, boxed: map[types.Object]bool{}, aliases: map[types.Object]*lval{}}
 	st := &State{pc: "true", vars: map[types.Object]Val{}, heap: map[string]Val{}}
 	x.old = st.clone()
 	return x, st
